@@ -58,10 +58,10 @@ Proof.
     peel R W. peel R W. apply resolve_cls in Hm0.
     eapply api_disconnect; eauto.
   - (* peer *)
-    apply andb_true_iff in P as [P1 P2]. apply negb_true_iff in P1. apply str_eqb_neq in P1.
     peel R W. peel R W. apply resolve_cls in Hm. apply resolve_cls in Hm0.
-    eapply api_peer; [exact W | exact Hm | exact Hm0 | exact P1 | | exact R].
-    intros an bn Ea Eb. unfold peer_link_free in P2. rewrite Ea, Eb in P2. exact P2.
+    eapply api_peer; [exact W | exact Hm | exact Hm0 | | exact R].
+    intro FP. rewrite FP in P. simpl in P. apply andb_true_iff in P as [P1 P2]. apply negb_true_iff in P1. apply str_eqb_neq in P1.
+    split; [exact P1|]. intros an bn Ea Eb. unfold peer_link_free in P2. rewrite Ea, Eb in P2. exact P2.
   - (* unpeer *)
     peel R W. peel R W. eapply api_unpeer; eauto.
   - (* remove_child_interface *)
